@@ -128,8 +128,24 @@ macro_rules! gen_acyclic {
                     g0.add_edge(ids[x].0, ids[y].0, next_w);
                     m0.edges.insert((ids[x].1, ids[y].1, next_w));
                 }
+                // half of the time the graph handed over has a removal history of its own (a StableDiGraph then has
+                // vacancies below its node bound, a DiGraph has renumbered nodes)
+                if rng.coin() {
+                    for _ in 0..1 + rng.below(2) {
+                        let nc = g0.node_count();
+                        if nc <= 1 {
+                            break;
+                        }
+                        let v = g0.node_indices().nth(rng.below(nc)).unwrap();
+                        let w = g0[v];
+                        g0.remove_node(v);
+                        m0.nodes.remove(&w);
+                        m0.edges.retain(|&(s, t, _)| s != w && t != w);
+                    }
+                    cx.count("try_from_graph:graph-with-removal-history");
+                }
                 let cyclic = m0.edges.iter().any(|&(s, t, _)| m0.reaches(t, s));
-                cx.log(|| format!("try_from_graph({:?}) cyclic={}", m0.edges, cyclic));
+                cx.log(|| format!("try_from_graph(nodes {:?}, edges {:?}) cyclic={}", m0.nodes, m0.edges, cyclic));
                 let r = if rng.coin() { Acyclic::try_from_graph(g0) } else { Acyclic::try_from(g0) };
                 match r {
                     Ok(acy) => {
